@@ -100,6 +100,10 @@ def gen(rng, tier):
         else:
             steps.append({"op": k})
     memory = rng.random() < 0.15
+    for st in steps:
+        if st["op"] == "update" and rng.random() < 0.25 and len(st["feats"]) >= 2:
+            st["fail_at"] = rng.randint(1, len(st["feats"]))  # source failure after the dialect peek (checklines=0)
+            st["form"] = "gen"
     if memory:
         steps = [st for st in steps if st["op"] not in ("reopen", "restart")]
     else:
@@ -261,6 +265,38 @@ def run(case):
                     nontrivial = True
                 if q["end"] >= (1 << 29) and must:
                     probes["query_at_or_beyond_2_29_with_hits"] = 1
+            # several region()/limit= generators alive on the one handle, advanced alternately
+            rq = [q for q in qs if q["kind"] in ("region", "limit_all", "limit_type")]
+            if len(rq) >= 2:
+                sel = qrng.sample(rq, qrng.choice([2, 2, 3]) if len(rq) >= 3 else 2)
+                if qrng.random() < 0.5:
+                    sel = sel + [dict(sel[0])]
+                reqs = []
+                for q in sel:
+                    o = request(q)
+                    rr = {"m": o["m"], "args": o.get("args") or [], "kw": o["kw"]}
+                    if o.get("region_feature"):
+                        rr = None
+                    reqs.append(rr)
+                if all(x is not None for x in reqs):
+                    alone = []
+                    for x in reqs:
+                        r = call(node, dict(x, op="read", h="h"))
+                        alone.append(r["out"] if r["ok"] else None)
+                    if all(a is not None for a in alone):
+                        sched = [qrng.randrange(len(reqs)) for _ in range(qrng.randint(2, 20))]
+                        r = call(node, {"op": "interleave", "h": "h", "queries": reqs, "schedule": sched})
+                        if not r["ok"]:
+                            V.append(viol("C06.interleaved", "%s: interleaved region/limit iterations raised %s: %s" % (where, r["exc"], r["msg"]),
+                                          kind="interleave_failed"))
+                            return False
+                        for x, a, b in zip(reqs, alone, r["outs"]):
+                            if sorted(a) != sorted(b):
+                                V.append(viol("C06.interleaved", "%s: %s(%r) yields %r while another query is being iterated on the handle, %r alone" % (
+                                    where, x["m"], x["kw"], b, a), kind="interleaved_differs", m=x["m"]))
+                                return False
+                        if any(len(a) > 1 for a in alone):
+                            probes["region_generators_interleaved"] = 1
             return True
 
         node = w.node()
@@ -299,6 +335,9 @@ def run(case):
                 if st.get("fmf"):
                     kw["force_merge_fields"] = st["fmf"]
                 ureq = {"op": "update", "h": "h", "data": G.source_spec(None, st["feats"], form=st["form"]), "kw": kw}
+                if st.get("fail_at") is not None:
+                    ureq["data"]["fail_at"] = st["fail_at"]
+                    kw["checklines"] = 0
                 if st.get("via") == "other_process":
                     # the write is made by another process; this handle stays open and answers the queries below
                     other = w.node()
@@ -328,6 +367,12 @@ def run(case):
                     out["discarded"] = True
                     break
                 call(node, {"op": "gc"})
+                if r.get("injected") and alive:
+                    # whatever a failed update left visible through this handle (on a :memory: database: the rows
+                    # imported so far), region/limit queries and a scan of the same handle must still agree
+                    probes["queries_after_failed_update"] = 1
+                    if not after_write("after failed %s #%d" % (k, si)):
+                        break
                 continue  # rejected ops (absent ids, duplicate relation...) are not this property's business
             alive = True
             if not after_write("after %s #%d" % (k, si)):
